@@ -150,6 +150,23 @@ func strip(v ssa.Value, widths bool) ssa.Value {
 						continue
 					}
 				}
+				// a field of a local struct built only to carry values (rttFold{minRTT: c, ...}): what was stored into it
+				if fa, ok := x.X.(*ssa.FieldAddr); ok && curProg != nil {
+					if _, isAlloc := fa.X.(*ssa.Alloc); isAlloc {
+						if val, _, ok := curProg.carriedField(fa.X, fa.Field, nil, 0); ok && val != nil {
+							v = val
+							continue
+						}
+					}
+				}
+			}
+			return v
+		case *ssa.Field:
+			if curProg != nil {
+				if val, _, ok := curProg.carriedField(x.X, x.Field, nil, 0); ok && val != nil {
+					v = val
+					continue
+				}
 			}
 			return v
 		case *ssa.ChangeType:
